@@ -594,3 +594,107 @@ Proof.
       + destruct (N.eq_dec c RB); [congruence|]. auto. }
   specialize (G _ _ NL H). apply (count_occ_not_In N.eq_dec) in G. contradiction.
 Qed.
+
+(* ================= the work-list loop refines the recursive description ================= *)
+Definition smatch (pkg : str) (t : pat) : bool := spec_match t pkg.
+
+(* a fully expanded pattern: compiled and matched in its own right *)
+Lemma worklist_leaf t pkg : wf false t -> rstep t = None -> quick (print t) pkg = true ->
+  match pattern_new (print t) with
+  | Val pt => nonalt_matches pt pkg = Some (spec_match t pkg)
+  | _ => spec_match t pkg = false
+  end.
+Proof.
+  intros Hw Ep Q. pose proof (step_shape t false Hw) as Sh. rewrite Ep in Sh. destruct Sh as (A & B & _).
+  unfold spec_match. rewrite rstep_none_exp by auto. cbn [existsb]. rewrite orb_false_r.
+  unfold base_pm, pm. destruct (pattern_new (print t)) as [pt| | |] eqn:E; auto.
+  pose proof (pattern_new_nobrace _ _ (no_mem _ _ A) (no_mem _ _ B) E) as K.
+  rewrite pmatches_nonalt by auto. unfold nonalt_matches. rewrite (ptext_new _ _ E), Q. cbn [negb andb].
+  destruct (pkind_of pt); try congruence; match goal with |- Some ?b = _ => destruct b; reflexivity end.
+Qed.
+Lemma spec_match_step t ps pkg : rstep t = Some ps -> spec_match t pkg = existsb (smatch pkg) ps.
+Proof.
+  intros Ep. unfold smatch, spec_match. apply eq_true_iff_eq. rewrite !existsb_exists. split.
+  - intros (e & He & Hb). apply (exp_step t ps Ep) in He as (p' & Hp' & He). exists p'. split; auto.
+    apply existsb_exists. eauto.
+  - intros (p' & Hp' & H). apply existsb_exists in H as (e & He & Hb). exists e. split; auto.
+    apply (exp_step t ps Ep). eauto.
+Qed.
+Lemma rfind_some_of_mid x b z : no LB b -> no LB z -> exists i, rfind LB (x ++ LB :: b ++ RB :: z) = Some i.
+Proof.
+  intros Hb Hz. exists (length x). apply rfind_last. apply no_app; split; auto. apply no_cons; split; [discriminate|auto].
+Qed.
+
+(* Running the loop on the prints of [ts] (on top of any other work [W]): after
+   [k] iterations either a match has been found, or exactly the work [W] is left. *)
+Lemma worklist_prefix pkg : forall n ts, Forall (wf false) ts -> Forall (fun t => (ngroups t < n)%nat) ts ->
+  exists k, forall W f,
+    alt_work (k + f) (map print ts ++ W) pkg =
+    if existsb (smatch pkg) ts then Some true else alt_work f W pkg.
+Proof.
+  induction n as [|n IHn]; intros ts Hw Hn.
+  { destruct ts as [|t ts]; [exists 0%nat; reflexivity|]. inversion Hn; subst; lia. }
+  induction ts as [|t ts IHts].
+  { exists 0%nat. reflexivity. }
+  inversion Hw as [|? ? Hwt Hwts]; subst. inversion Hn as [|? ? Hnt Hnts]; subst.
+  destruct (IHts Hwts Hnts) as (k2 & H2).
+  pose proof (step_shape t false Hwt) as Sh. pose proof (string_step_is_rstep t false Hwt) as SS.
+  destruct (quick (print t) pkg) eqn:Q.
+  2:{ (* fast reject *)
+    exists (S k2). intros W f. cbn [map app existsb plus alt_work]. rewrite Q. cbn [negb].
+    unfold smatch at 1. rewrite (quick_inert_alt t pkg Q). cbn [orb]. apply H2. }
+  destruct (rstep t) as [ps|] eqn:Ep.
+  - (* a group is expanded; its alternatives go on top of the work list *)
+    destruct Sh as (x & b & z & E & Hb1 & Hb2 & Hz & Em).
+    assert (Forall (wf false) ps) as Hwps.
+    { apply Forall_forall. intros p' Hp'. eapply wf_step; eauto. }
+    assert (Forall (fun t' => (ngroups t' < n)%nat) ps) as Hnps.
+    { apply Forall_forall. intros p' Hp'. pose proof (nLB_step _ _ _ _ Hwt Ep Hp') as L.
+      rewrite (nLB_print t false Hwt) in L. rewrite (nLB_print p' false) in L by (eapply wf_step; eauto). lia. }
+    destruct (IHn ps Hwps Hnps) as (k1 & H1).
+    exists (S (k1 + k2)). intros W f. cbn [map app plus alt_work]. rewrite Q. cbn [negb].
+    destruct (rfind_some_of_mid x b z Hb1 Hz) as (i & Ei). rewrite E in *. rewrite Ei.
+    rewrite <- E in *. rewrite SS. cbn [option_map].
+    cbn [existsb]. unfold smatch at 1. rewrite (spec_match_step t ps pkg Ep).
+    replace (k1 + k2 + f)%nat with (k1 + (k2 + f))%nat by lia.
+    rewrite H1. destruct (existsb (smatch pkg) ps); cbn [orb]; [reflexivity|]. apply H2.
+  - (* fully expanded *)
+    destruct Sh as (A & B & _).
+    exists (S k2). intros W f. cbn [map app plus alt_work existsb]. rewrite Q. cbn [negb].
+    rewrite (rfind_none LB _ A).
+    pose proof (worklist_leaf t pkg Hwt Ep Q) as L. unfold smatch at 1.
+    destruct (pattern_new (print t)) as [pt| | |].
+    + rewrite L. destruct (spec_match t pkg); cbn [orb]; [reflexivity|]. apply H2.
+    + rewrite L. cbn [orb]. apply H2.
+    + rewrite L. cbn [orb]. apply H2.
+    + rewrite L. cbn [orb]. apply H2.
+Qed.
+
+(* Pattern::new + matches with the work-list loop = the recursive description,
+   for every pattern string and name, once the loop is given enough iterations;
+   more iterations never change the answer *)
+Theorem worklist_refines p pkg : exists k, forall f, pm_w (k + f) p pkg = pm p pkg.
+Proof.
+  unfold pm_w, pm. destruct (pattern_new p) as [pt| | |] eqn:E; try (exists 0%nat; reflexivity).
+  destruct (mem LB p || mem RB p) eqn:Hb.
+  - (* alternate *)
+    apply orb_true_iff in Hb. pose proof E as E'. rewrite pattern_new_brace in E' by auto.
+    destruct (bal p 0) eqn:Hbal; [|discriminate]. injection E' as <-.
+    destruct (alternate_api p pkg Hb Hbal) as (t & Hw & <- & Hpm).
+    unfold pm in Hpm. rewrite E in Hpm.
+    assert (Forall (wf false) [t]) as F1 by (constructor; auto).
+    assert (Forall (fun t0 => (ngroups t0 < S (ngroups t))%nat) [t]) as F2 by (constructor; auto).
+    destruct (worklist_prefix pkg (S (ngroups t)) [t] F1 F2) as (k & Hk).
+    exists (S k). intros f. unfold pmatches_w. cbn [ptext pkind_of].
+    destruct (pmatches (fuel_for (print t)) {| pkind_of := KAlt; ptext := print t |} pkg) as [b|] eqn:M; [|discriminate].
+    injection Hpm as ->.
+    destruct (quick (print t) pkg) eqn:Q; cbn [negb].
+    + specialize (Hk [] (S f)). cbn [map app existsb] in Hk. rewrite orb_false_r in Hk. unfold smatch in Hk.
+      replace (S k + f)%nat with (k + S f)%nat by lia. rewrite Hk. destruct (spec_match t pkg); reflexivity.
+    + rewrite (quick_inert_alt t pkg Q). reflexivity.
+  - (* not an alternate: the same code path *)
+    exists 0%nat. intros f. apply orb_false_iff in Hb as [H1 H2].
+    pose proof (pattern_new_nobrace _ _ H1 H2 E) as K.
+    rewrite pmatches_nonalt by auto. unfold pmatches_w, nonalt_matches.
+    destruct (quick (ptext pt) pkg); cbn [negb andb]; destruct (pkind_of pt); try congruence; reflexivity.
+Qed.
